@@ -10,9 +10,16 @@ sys.path.insert(0, os.path.dirname(os.path.abspath(__file__)))
 import kv  # noqa: E402
 
 
+DRY = os.environ.get('VERIF_TABLES_DRY') == '1'     # only report (exit 3) whether a file would change
+WOULD_CHANGE = []
+
+
 def write_if_changed(path, text):
     old = open(path).read() if os.path.exists(path) else None
     if old != text:
+        if DRY:
+            WOULD_CHANGE.append(path)
+            return
         with open(path, 'w') as f:
             f.write(text)
 
@@ -76,8 +83,13 @@ def main(out_path):
                     print(f'TABLE-TRANSLATOR-FAILED {fn}: {type(e).__name__}: {e}')
                     for ext in ('.v', '.vo'):
                         if os.path.exists(target[:-2] + ext):
-                            os.unlink(target[:-2] + ext)
+                            if DRY:
+                                WOULD_CHANGE.append(target)
+                            else:
+                                os.unlink(target[:-2] + ext)
 
 
 if __name__ == '__main__':
     main(sys.argv[1])
+    if DRY and WOULD_CHANGE:
+        sys.exit(3)
